@@ -72,10 +72,12 @@ def c14_deletion(E, procs=(2,)):
     env.for_path(E)
     _install_pool(E)
     m = networks.build("T8")
-    networks.symbolic_bounds(E, m, which=[E.pick("symbolic_reaction", ["EX_A", "DM_B"])])
+    which = E.pick("symbolic_reaction", ["EX_A", "DM_B"])
+    networks.symbolic_bounds(E, m, which=[which])
     m.objective = "DM_B"
     entity = E.pick("entity", ["reaction", "gene"])
     double = E.flag("double")
+    earlier = (not double) and E.flag("earlier_serial_call_on_other_bounds")
     pool = [r.id for r in m.reactions] if entity == "reaction" else ["g1", "g2", "g3", "g4"]
     items = pool[:3]
     perm = list(E.pick("item_order", [tuple(items), tuple(reversed(items))]))
@@ -84,7 +86,12 @@ def c14_deletion(E, procs=(2,)):
         fn = double_reaction_deletion if entity == "reaction" else double_gene_deletion
     else:
         fn = single_reaction_deletion if entity == "reaction" else single_gene_deletion
-    E.note(entity=entity, processes=p, order=perm, double=double)
+    E.note(entity=entity, processes=p, order=perm, double=double, earlier_call=earlier)
+    if earlier:
+        # the same model object was screened before, in this process, with other bounds: nothing of that call may
+        # survive into this one (serial and parallel runs start from different process states)
+        fn(m, items, processes=1)
+        networks.symbolic_bounds(E, m, which=[which])
     before = observe(m)
     serial = fn(m, items, processes=1)
     par = fn(m, perm, processes=p)
